@@ -4,9 +4,10 @@ C14 — PALS q-gram filter reports every ε-match.  Property theorems only.
 import Biogo.Model.Filter
 import Biogo.Spec.Filter
 import Biogo.Generated.FilterFacts
+import Biogo.Proofs.Filter
 
 namespace Biogo.Properties.C14
-open Biogo.Filter Biogo.Spec.Filter
+open Biogo.Filter Biogo.Spec.Filter Biogo.Spec.Kmer Biogo.Proofs.Filter
 
 /-- `tube_geometry`: a diagonal index `d` lies in the band of tube `d / off`, and also in the
     band of the previous tube exactly when `d % off < e` (tube `i` covers the diagonal indices
@@ -22,5 +23,50 @@ theorem tube_geometry (off e d : Nat) (hoff : 0 < off) :
   have h4 : (d / off - 1) * off + off = d / off * off := by
     rw [← Nat.succ_mul]; congr 1; omega
   constructor <;> omega
+
+/-- `qgram_lemma` (Ukkonen, substitutions only): an ε-match — windows `t[a:a+n]`, `q[b:b+n]`
+    differing in at most `e` columns — shares at least `MinWordsPerFilterHit(n, k, e) =
+    n + 1 - k(e+1)` k-mer occurrences; every shared k-mer pairs target position `a+i` with query
+    position `b+i` (so it lies on the diagonal of the match), lies inside the match
+    (`i + k ≤ n`), and any two of them are at most `n - k = maxKmerDist` apart in the query. -/
+theorem qgram_lemma (lk : Lookup) (k : Nat) (hk : 1 ≤ k) (t q : List UInt8) (n e a b : Nat)
+    (h : EpsMatch lk t q n e a b) :
+    ((sharedKmers lk k t q a b n).length : Int) ≥ minWordsPerFilterHit n k e ∧
+    (∀ i ∈ sharedKmers lk k t q a b n,
+      i + k ≤ n ∧ ∃ w, wordAt lk k t (a + i) = some w ∧ wordAt lk k q (b + i) = some w) ∧
+    (∀ i ∈ sharedKmers lk k t q a b n, ∀ i' ∈ sharedKmers lk k t q a b n,
+      (b + i') - (b + i) ≤ n - k) := by
+  refine ⟨?_, ?_, ?_⟩
+  · have := sharedKmers_bound lk k hk t q a b n e h.2.2
+    unfold minWordsPerFilterHit
+    have h2 : ((k * (e + 1) : Nat) : Int) = (k : Int) * ((e : Int) + 1) := by simp
+    omega
+  · intro i hi
+    unfold sharedKmers at hi
+    rw [List.mem_filter, List.mem_range] at hi
+    obtain ⟨h1, h2⟩ := hi
+    refine ⟨by omega, ?_⟩
+    cases hw : wordAt lk k t (a + i) with
+    | none => simp [hw] at h2
+    | some w =>
+      cases hw' : wordAt lk k q (b + i) with
+      | none => simp [hw, hw'] at h2
+      | some w' =>
+        simp only [hw, hw', beq_iff_eq] at h2
+        exact ⟨w, rfl, by rw [h2]⟩
+  · intro i hi i' hi'
+    unfold sharedKmers at hi hi'
+    rw [List.mem_filter, List.mem_range] at hi hi'
+    omega
+
+-- non-vacuity: "acgtacgtac" against "acgtaagtac" (one substitution), k = 3, n = 10, e = 1:
+-- threshold 10 + 1 - 3·2 = 5, shared 3-mers at offsets 0,1,2 and 6,7
+example :
+    let lk : Lookup := fun b => if b = 97 then some 0 else if b = 99 then some 1 else if b = 103 then some 2
+      else if b = 116 then some 3 else none
+    EpsMatch lk [97, 99, 103, 116, 97, 99, 103, 116, 97, 99] [97, 99, 103, 116, 97, 97, 103, 116, 97, 99] 10 1 0 0 ∧
+    sharedKmers lk 3 [97, 99, 103, 116, 97, 99, 103, 116, 97, 99] [97, 99, 103, 116, 97, 97, 103, 116, 97, 99] 0 0 10
+      = [0, 1, 2, 6, 7] ∧ minWordsPerFilterHit 10 3 1 = 5 := by
+  decide
 
 end Biogo.Properties.C14
